@@ -91,6 +91,26 @@ class PlainLink(Titled, SymlinkNodeMixin):
         return "PlainLink(...)"
 
 
+class ReprBoomError(Exception):
+    pass
+
+
+class BoomReprNM(NodeMixin):
+    """A node class whose repr()/str() cannot be evaluated (it prints data that refers back to the node, or an attribute
+    that is not set yet): successful operations never need the text of a node."""
+
+    def __init__(self, name=None, parent=None, children=None):
+        self.name = name
+        self.parent = parent
+        if children:
+            self.children = children
+
+    def __repr__(self):
+        raise ReprBoomError("repr of node %s was evaluated" % (self.name,))
+
+    __str__ = __repr__
+
+
 class Registered(object):
     """A cooperative base class (its constructor passes on to the next class in the MRO)."""
 
@@ -316,6 +336,8 @@ def factory(clsname):
         # with size/path/depth columns): keyword attributes go into the instance dictionary, the properties still win
         data = {"size": 2048, "height": 80, "depth": 7, "leaves": "oak", "descendants": (), "path": "/tmp/x", "ancestors": None, "root": "sqrt", "is_leaf": "maybe", "is_root": 0, "siblings": 3, "anchestors": 1}
         return lambda label: (Node(str(label), **data) if int(label) % 2 else AnyNode(name=str(label), **data))
+    if clsname == "BoomRepr":
+        return lambda label: BoomReprNM(str(label))
     if clsname == "LateSuperNM":
         return lambda label: LateSuperNM(str(label))
     if clsname == "ShadowMRO":
